@@ -328,11 +328,15 @@ func verifRetType() *Type {
 }
 
 func verifExtends() string {
-	switch verifChoice(3) {
+	switch verifChoice(5) {
 	case 1:
 		return "Base"
 	case 2:
 		return "Other"
+	case 3:
+		return "v1.Base" // the same unqualified name from two different includes
+	case 4:
+		return "v2.Base"
 	}
 	return ""
 }
